@@ -57,6 +57,10 @@ WORDS = ['size', 'name', 'bar', 'baz', 'frob', 'run', 'count', 'kind', 'item', '
          'close', 'reset', 'peek', 'twist', 'flags', 'data', 'next']
 TYPEWORDS = ['Bar', 'Baz', 'BarBaz', 'Qux', 'Item', 'Node', 'BarSize', 'Bars', 'BAR', 'Widget', 'Box']
 STAB = ['Stable', 'Unstable', 'Private']
+# short identifiers (generated in a stream of their own on every run): a C identifier, a property name and a
+# signal name may be a single character
+SHORT_WORDS = ['x', 'y', 'z', 'r', 'g', 'b', 'a', 'w', 'h', 'n', 'i', 'k', 't', 'u', 'v', 'q', 'id', 'ab', 'x2', 'e']
+SHORT_TYPEWORDS = ['X', 'Y', 'T', 'N', 'Pt', 'Bar', 'Baz', 'Qux', 'Item', 'Node', 'Box']
 
 
 def uscore(camel):
@@ -1118,13 +1122,15 @@ def gen_block_content(rng, kind, names, heavy=True):
     return b
 
 
-def gen_spec(rng, size=None):
+def gen_spec(rng, size=None, words=None, typewords=None):
+    WORDS_ = words or WORDS
+    TYPEWORDS_ = typewords or TYPEWORDS
     ns = rng.choice(['Foo', 'Foo', 'Foo', 'Gx', 'FooBar'])
     pre = uscore(ns) + '_'
     spec = {'ns': ns, 'types': [], 'funcs': [], 'blocks': []}
     n_types = rng.randint(2, 7) if size is None else size
-    tnames = rng.sample(TYPEWORDS, min(n_types, len(TYPEWORDS)))
-    shared_props = rng.sample(WORDS, 3)
+    tnames = rng.sample(TYPEWORDS_, min(n_types, len(TYPEWORDS_)))
+    shared_props = rng.sample(WORDS_, 3)
     used_syms = set()
     for tn in tnames:
         k = rng.choice(['class', 'class', 'class', 'record', 'record', 'union', 'enum', 'bitfield', 'alias', 'callback',
@@ -1136,7 +1142,7 @@ def gen_spec(rng, size=None):
         if k in ('class', 'interface'):
             t['has_struct'] = rng.random() < 0.85
             t['has_class_struct'] = rng.random() < 0.85
-            words = rng.sample(WORDS, 8)
+            words = rng.sample(WORDS_, 8)
             common = rng.choice(shared_props)
             uniq = lambda l: list(dict.fromkeys(l))  # noqa
             t['fields'] = uniq([common] + words[:rng.randint(0, 2)]) if (k == 'class' and t['has_struct']) else []
@@ -1152,7 +1158,7 @@ def gen_spec(rng, size=None):
             t['vslots'] = [{'name': w, 'nparams': rng.randint(0, 2)}
                            for w in uniq([common] + words[5:5 + rng.randint(0, 1)])] if t['has_class_struct'] else []
             t['funcs'] = []
-            mwords = [common] + rng.sample(WORDS, 3)
+            mwords = [common] + rng.sample(WORDS_, 3)
             for w in dict.fromkeys(mwords):
                 np_ = rng.randint(0, 2)
                 for v in t['vslots']:
@@ -1165,7 +1171,7 @@ def gen_spec(rng, size=None):
             # accessor names the pairing heuristic looks for: get_<prop>, set_<prop>, is_<prop> (and <prop>
             # itself, above); now and then a dashed property name (normalised to '_' for the lookup)
             if rng.random() < 0.25:
-                a, b2 = rng.sample(WORDS, 2)
+                a, b2 = rng.sample(WORDS_, 2)
                 t['props'].append({'name': '%s-%s' % (a, b2), 'flags': rng.choice([1, 3, 3, 11]),
                                    'type': rng.choice(['gint', 'gboolean'])})
             for p in t['props']:
@@ -1178,14 +1184,14 @@ def gen_spec(rng, size=None):
                 if rng.random() < 0.4:
                     t['funcs'].append({'symbol': us + 'create', 'role': 'ctor', 'nparams': 1})
                 if rng.random() < 0.4:
-                    t['funcs'].append({'symbol': us + rng.choice(WORDS) + '_all', 'role': 'static', 'nparams': 1})
+                    t['funcs'].append({'symbol': us + rng.choice(WORDS_) + '_all', 'role': 'static', 'nparams': 1})
         elif k in ('record', 'union'):
-            t['fields'] = rng.sample(WORDS, rng.randint(1, 3))
+            t['fields'] = rng.sample(WORDS_, rng.randint(1, 3))
             t['funcs'] = [{'symbol': us + w, 'role': 'method', 'nparams': rng.randint(0, 1)}
-                          for w in rng.sample(WORDS, rng.randint(0, 2))]
+                          for w in rng.sample(WORDS_, rng.randint(0, 2))]
         elif k in ('enum', 'bitfield'):
             up = (pre + uscore(tn)).upper() + '_'
-            t['members'] = [up + w.upper() for w in rng.sample(WORDS, rng.randint(2, 4))]
+            t['members'] = [up + w.upper() for w in rng.sample(WORDS_, rng.randint(2, 4))]
         elif k == 'callback':
             t['nparams'] = rng.randint(0, 2)
         t['funcs'] = [f for f in t.get('funcs', []) if f['symbol'] not in used_syms
@@ -1194,11 +1200,11 @@ def gen_spec(rng, size=None):
             used_syms.add(f['symbol'])
         spec['types'].append(t)
     for i in range(rng.randint(0, 3)):
-        cn = (pre + rng.choice(WORDS)).upper() + rng.choice(['', '_MAX', '_2'])
+        cn = (pre + rng.choice(WORDS_)).upper() + rng.choice(['', '_MAX', '_2'])
         if not any(t.get('cname') == cn or t['name'].upper() == cn[len(pre):] for t in spec['types']):
             spec['types'].append({'k': 'constant', 'name': 'const%d' % i, 'cname': cn, 'int': rng.randint(0, 9)})
     type_prefixes = [pre + uscore(t['name']) for t in spec['types'] if t['k'] != 'constant']
-    for w in rng.sample(WORDS, rng.randint(1, 5)):
+    for w in rng.sample(WORDS_, rng.randint(1, 5)):
         sym = pre + 'do_' + w + rng.choice(['', '_full', '_v2'])
         if sym in used_syms or any(sym.startswith(p + '_') or sym == p for p in type_prefixes):
             continue
@@ -1321,6 +1327,33 @@ def gen_spec(rng, size=None):
     return spec
 
 
+def gen_short(rng):
+    """the same namespaces with SHORT identifiers: one-character (and two-character) field, property, signal,
+    virtual-slot, method, enum-member and type names, and a block for every field -- 'FooPt.x:', 'FooBar:x:',
+    'FooBar::x:', 'FooBarClass::x:', 'FOO_BAR_X:', 'foo_bar_x:', 'FooX:' are identifiers the statement speaks
+    about like any other; a record with the usual coordinate fields (and the field '_') is always present"""
+    spec = gen_spec(rng, size=rng.randint(2, 5), words=SHORT_WORDS, typewords=SHORT_TYPEWORDS)
+    if not any(t['name'] == 'Pt' for t in spec['types']):
+        spec['types'].append({'k': rng.choice(['record', 'record', 'union']), 'name': 'Pt', 'funcs': []})
+    pt = find_type(spec, 'Pt')
+    if pt['k'] in ('record', 'union'):
+        pt['fields'] = list(dict.fromkeys(rng.sample(['x', 'y', '_', 'r', 'w'], 3) + pt.get('fields', [])))
+    have = set(b['key'] for b in spec['blocks'])
+    extra = []
+    for t in spec['types']:
+        cname = spec['ns'] + t['name']
+        for f in t.get('fields', []):
+            key = '%s.%s' % (cname, f)
+            if key not in have and rng.random() < 0.8:
+                b = gen_block_content(rng, 'field', [])
+                b['key'] = key
+                b['target'] = ('field', t['name'], f)
+                extra.append(b)
+    for b in extra:
+        spec['blocks'].insert(rng.randint(0, len(spec['blocks'])), b)
+    return spec
+
+
 def gen_malformed(rng):
     """syntactically broken or wrongly targeted annotations: the oracle judges only what stays in scope"""
     spec = gen_spec(rng, size=rng.randint(2, 4))
@@ -1406,10 +1439,10 @@ def load_corpus():
 def key_correspondence(ctx, cnt):
     """the key builders and str.lower against CPython, on near-colliding names"""
     reqs, wants = [], []
-    names = ['FooBar', 'Foo', 'foo_bar', 'FOOBAR', 'FooBarClass', 'size', 'notify::size', 'a.b', 'A:B', '', 'É', 'SECTION',
-             'Foo_Bar9', 'x-y']
+    names = ['x', '_', 'FooBar', 'Foo', 'foo_bar', 'FOOBAR', 'FooBarClass', 'size', 'notify::size', 'a.b', 'A:B', '', 'É',
+             'SECTION', 'Foo_Bar9', 'x-y']
     for a in names:
-        for n in names[:8]:
+        for n in names[:10]:
             for kind, f in (('prop', '%s:%s'), ('sig', '%s::%s'), ('field', '%s.%s'), ('vfunc', '%s::%s')):
                 reqs.append({'op': 'c03.key', 'kind': kind, 'ann': a, 'name': n})
                 wants.append(f % (a, n))
@@ -1502,14 +1535,21 @@ def run(ctx):
     t_budget = ctx.n(60, 600)
     n_cases = ctx.n(300, 10000)
     n_mal = ctx.n(40, 1200)
+    n_short = ctx.n(40, 1200)
     n_absence = ctx.n(4, 6)
     nkeys = key_correspondence(ctx, cnt)
     corpus = [(cid, c['spec']) for cid, c in load_corpus()]
     n_corpus = len(corpus)
 
+    import random
+    srng = random.Random(ctx.seed * 1000003 + 3 + 0x5107)   # (own generator: the other streams are as before)
+
     def tasks():
         for cid, spec in corpus:
             yield (cid, spec, 'corpus', max(n_absence, len(spec['blocks'])), rng.getrandbits(32))
+        # short identifiers first: the stream is complete on every run, whatever the time budget does later
+        for i in range(n_short):
+            yield ('s%d' % i, gen_short(srng), 'short', n_absence, srng.getrandbits(32))
         for i in range(n_cases):
             yield ('g%d' % i, gen_spec(rng), 'valid', n_absence, rng.getrandbits(32))
         for i in range(n_mal):
@@ -1555,6 +1595,11 @@ def run(ctx):
                 if b.get(tg):
                     cnt.hit('tag:' + tg)
             cnt.hit('target:' + (b['target'][0] if b.get('target') else 'none'))
+            # identifiers whose own name (after the '.', ':', '::' or the type's symbol prefix) is one character
+            if b.get('target') and len(b['target']) == 3 and len(b['target'][2]) == 1:
+                cnt.hit('one-char-name:' + b['target'][0])
+            elif b.get('target') and b['target'][0] in ('fn', 'member') and re.search(r'_[A-Za-z]$', b['key']):
+                cnt.hit('one-char-name:' + b['target'][0])
         if 'model_input_error' in out:
             cnt.hit('correspondence:model-input-unreadable')
             if cnt.counts['correspondence:model-input-unreadable'] <= 2:
@@ -1621,7 +1666,9 @@ def run(ctx):
                 'and a random assignment of '
                 'identifier annotations and tags to every element kind, incl. competing / chained / dangling rename-to, '
                 '(virtual), role annotations, wrong-kind annotations and near-miss keys; a malformed stream (missing or '
-                'surplus options, rename-to an enum member, (virtual) on a record method). Every namespace: real pipeline '
+                'surplus options, rename-to an enum member, (virtual) on a record method); a stream of the same namespaces '
+                'with one- and two-character field / property / signal / slot / method / member / type names and a '
+                'Struct.field block for nearly every field (complete on every run). Every namespace: real pipeline '
                 'vs model on every element record; statement oracle: presence on the target, absence elsewhere by '
                 're-scanning without one block at a time (%d blocks per namespace). non-trivial = at least one block '
                 'and five GIR elements; distinct by content hash.' % n_absence,
